@@ -31,6 +31,10 @@ def lattice_meshes(tier):
             if edit:
                 edit(geo)
             geo.identify_neighbours()
+            if name in ("r4x3", "mixed", "r5x5"):
+                # a layer whose recorded centre is not at mid-height (legal in geometry files)
+                lay = geo.layerlist[-1]
+                lay.centre = lay.bottom + 0.25 * (lay.top - lay.bottom)
             if steps:
                 for k, c in enumerate(geo.columnlist):
                     if k % 3 == 1:
@@ -407,7 +411,7 @@ def differential(rep, name, geo, rng, npoints, nlines):
                 near.append(cols[a])
             subsets.append(("disc", near))
         bnds = [("none", None), ("rect", geo.bounds)]
-        if fb is not None and not (a is not None and lm.winding(fp, fb) == 0) and not lm.on_boundary(fp, fb):
+        if fb is not None and not lm.on_boundary(fp, fb):
             if all(lm.seg_dist2(pos, (float(fb[j][0]), float(fb[j][1])), (float(fb[(j + 1) % len(fb)][0]), float(fb[(j + 1) % len(fb)][1]))) > 1e-12 * (w * w + h * h)
                    for j in range(len(fb))):
                 bnds.append(("poly", bpoly))
